@@ -239,6 +239,37 @@ func (r *NgReader) readOption() error {
 // errNgShortOption is returned for an option whose value is shorter than the fixed size it is parsed as
 var errNgShortOption = errors.New("pcapng option value too short")
 
+// readData reads exactly n bytes, reusing buf when it is large enough. The buffer grows as data actually arrives, so
+// that a bogus length in a corrupt file cannot force an allocation out of proportion to the bytes present.
+func (r *NgReader) readData(buf []byte, n int) ([]byte, error) {
+	if n > cap(buf) && n > ngReadStep {
+		return r.readDataGrowing(buf[:0], n)
+	}
+	if cap(buf) < n {
+		buf = make([]byte, n)
+	}
+	buf = buf[:n]
+	_, err := r.readBytes(buf)
+	return buf, err
+}
+
+const ngReadStep = 1 << 16
+
+func (r *NgReader) readDataGrowing(buf []byte, n int) ([]byte, error) {
+	chunk := make([]byte, ngReadStep)
+	for len(buf) < n {
+		m := n - len(buf)
+		if m > ngReadStep {
+			m = ngReadStep
+		}
+		if _, err := r.readBytes(chunk[:m]); err != nil {
+			return buf, err
+		}
+		buf = append(buf, chunk[:m]...)
+	}
+	return buf, nil
+}
+
 // readSectionHeader parses the full section header and implements section skipping in case of version mismatch
 // if needed, the first interface is read
 func (r *NgReader) readSectionHeader() error {
@@ -673,6 +704,17 @@ OPTIONS:
 	return opts, nil
 }
 
+// checkPacketLengths validates the lengths of the packet header just read against the block and each other.
+func (r *NgReader) checkPacketLengths() error {
+	if r.ci.CaptureLength > r.ci.Length {
+		return fmt.Errorf("capture length exceeds original packet length: %d > %d", r.ci.CaptureLength, r.ci.Length)
+	}
+	if uint32(r.ci.CaptureLength) > r.currentBlock.length {
+		return fmt.Errorf("capture length %d exceeds remaining block length %d", r.ci.CaptureLength, r.currentBlock.length)
+	}
+	return nil
+}
+
 // ReadPacketData returns the next packet available from this data source.
 // If WantMixedLinkType is true, ci.AncillaryData[0] contains the link type.
 func (r *NgReader) ReadPacketData() (data []byte, ci gopacket.CaptureInfo, err error) {
@@ -691,8 +733,10 @@ func (r *NgReader) ReadPacketDataWithOptions() (data []byte, ci gopacket.Capture
 		ci.AncillaryData = make([]interface{}, 1)
 		ci.AncillaryData[0] = r.ancil[0]
 	}
-	data = make([]byte, r.ci.CaptureLength)
-	if _, err = r.readBytes(data); err != nil {
+	if err = r.checkPacketLengths(); err != nil {
+		return
+	}
+	if data, err = r.readData(nil, r.ci.CaptureLength); err != nil {
 		return
 	}
 	r.currentBlock.length -= uint32(r.ci.CaptureLength)
@@ -737,17 +781,17 @@ func (r *NgReader) ZeroCopyReadPacketDataWithOptions() (data []byte, ci gopacket
 	if r.options.WantMixedLinkType {
 		ci.AncillaryData = r.ancil[:]
 	}
-	if cap(r.packetBuf) < ci.CaptureLength {
-		snaplen := int(r.ifaces[ci.InterfaceIndex].SnapLength)
-		if snaplen < ci.CaptureLength {
-			snaplen = ci.CaptureLength
-		}
-		r.packetBuf = make([]byte, snaplen)
-	}
-	data = r.packetBuf[:ci.CaptureLength]
-	if _, err = r.readBytes(data); err != nil {
+	if err = r.checkPacketLengths(); err != nil {
 		return
 	}
+	if snaplen := int(r.ifaces[ci.InterfaceIndex].SnapLength); cap(r.packetBuf) < snaplen && ci.CaptureLength <= snaplen {
+		r.packetBuf = make([]byte, snaplen)
+	}
+	if r.packetBuf, err = r.readData(r.packetBuf, ci.CaptureLength); err != nil {
+		data = r.packetBuf
+		return
+	}
+	data = r.packetBuf
 	r.currentBlock.length -= uint32(r.ci.CaptureLength)
 	padding := (4 - r.ci.CaptureLength&3) & 3
 	if padding > 0 {
